@@ -598,6 +598,30 @@ def family_hist(rng, count, nmin=6, nmax=9, extra=6):
     return out
 
 
+def family_hist_inside(rng, count):
+    """family_hist charts with, in addition, transitions into a history state from INSIDE its parent (beyond the
+    quantifier of C06, which has history states entered from outside; the statement itself - what was active when the
+    parent was last exited - still says what such a transition restores, and the code accepts these charts)."""
+    out = []
+    for c in family_hist(rng, count, nmin=5, nmax=8, extra=3):
+        k = c['kind']
+        pairs = []
+        for h in [s for s in range(1, c['n'] + 1) if k[s - 1] in HISTORY]:
+            p = c['parent'][h - 1]
+            if k[p - 1] != 'compound':
+                continue
+            inner = [s for s in descendants(c, p) if k[s - 1] in TRANS_KINDS]
+            rng.shuffle(inner)
+            pairs += [(s, h) for s in inner[:2]]
+        if not pairs:
+            continue
+        base = len(c['trans'])
+        c['trans'] = c['trans'] + [mk_trans(s, t, base + i + 1) for i, (s, t) in enumerate(pairs)]
+        c['events'] = list(range(1, len(c['trans']) + 2))
+        out.append(c)
+    return out
+
+
 def family_hist_orth(rng, count):
     """History owner nested inside one region of an orthogonal state whose sibling region has (deeper) content:
     root{out, P||{R1{w, T{H, a, b}}, R2{c{c1, c2}, d}}}; H is entered from w (P stays active) and from out;
